@@ -139,6 +139,10 @@ HISTORY_SNIPPETS = [
     "*=0x008000\n.dw nowhere\nshared:\n", "*=0x7d0000\nnop\n", "*=0x008000\nbra far\n.incbin 'pad.bin'\nfar:\n",
     "*=0x008000\nundefined_macro(1)\n", "/* open\n", "*=0x008000\n@=0x7e0000\nhere:\nbra here\n",
     "*=0x008000\n.scope shared {\nx:\n}\n.dl shared.x\n", "*=0x008000\n.for i := 0, 4 {\n.db i\n}\n",
+    # failures DURING emission, after bytes of the block were already produced (what an aborted emission held must not
+    # reach the next assembly)
+    "*=0x008000\nlda.w #0x1234\njsr.w zz_missing\n", "*=0x008000\n.db 1, 2, 3\n.dw zz_missing\n",
+    "*=0x008000\nnop\nnop\nbra zz_far\n.incbin 'pad.bin'\nzz_far:\n", "*=0x018000\n.ascii 'left over'\nlda.l 0x1000000\n",
     # every branch mnemonic to a target whose logical address is valid under each mapping but lies at another file offset
     BRANCHY, BRANCHY.replace("0x408000", "0x418000"),
     ".map identifier=1 bank_range=0x40,0x6f addr_range=0,0xffff mask=0x10000\n" + BRANCHY,
@@ -227,6 +231,12 @@ def cases(ctx):
         out.append({"kind": "names-and-encodings", "rom": "low", "src": probe, "files": files,
                     "history": [{"src": h, "files": f, "rom": "low"} for h, f in hist], "count_empty": True,
                     "spec": {"t": "twin", "labels": True}})
+    for h in HISTORY_SNIPPETS:
+        if "zz_missing" in h or "left over" in h or "zz_far" in h:
+            for probe in ("*=0x008000\n.db 0xAA, 0xBB\nzz_p:\n.dl zz_p\n", "nop\nrts\n", "*=0x028000\nlda.w #0x5678\n"):
+                out.append({"kind": "after-aborted-emission", "rom": "low", "src": probe, "files": {},
+                            "history": [{"src": h, "files": dict(HIST_FILES), "rom": "low"}], "count_empty": True,
+                            "spec": {"t": "twin", "labels": True}})
     for i in range(n):
         history = []
         for _ in range(rng.randrange(1, 9)):
